@@ -281,7 +281,8 @@ def main(chk, replay=None):
     jobs = []
     for i, (rows, exp) in enumerate(tables):
         single = len(rows) == 1
-        if chk.quick and not single and (i + chk.seed) % 23:
+        both_float_fl3 = (not single and all(r['file'] == 'ok-float' and r['units'][2] != 'empty' for r in rows))
+        if chk.quick and not single and (i + chk.seed) % 23 and not both_float_fl3:
             continue
         for inst in (('A', 'B') if single else ('A',)):
             for fr in ((0.3, 0.85) if single else (0.5,)):
